@@ -167,3 +167,100 @@ Proof.
   exact (conj (@QV.Evqe.Ops_proofs.selection_alignment) (@QV.Evqe.Ops_proofs.mutation_order_independent)).
 Qed.
 Print Assumptions C17_completion_independent_operators.
+
+(* ================================================================ the COMPOSITION: a whole solve *)
+(* Repro/Compose.v: evqe_run = Solver/Loop.v (the loop of _solve_by_evolution) instantiated with the EVQE operator list
+   in the order evqe.py builds it, each operator being builder-ops' value-level model (Evqe/Heap.v run_op), the initial
+   population RandLayer.random_population driven by the population seed the master generator hands out
+   (Repro/Seeding.v master_session), randomness as per-generator decision streams (Evqe/Stream.v decisions bridged to
+   odecision), optimiser / evaluator / generated layers as oracle logs.  harness/props/c17.py replays whole real
+   solves through it (every population, every callback payload, the final result).  Proofs: Repro/Compose_proofs.v. *)
+From QV Require Repro.Compose Repro.Compose_proofs Repro.ComposeCheck Repro.ComposeExample.
+From QV Require Solver.Ledger.
+
+Section ComposedRun.
+  Import QV.Repro.Compose QV.Repro.Compose_proofs.
+  Variable ev : zind -> result Q.                           (* the circuit evaluator: any oracle *)
+  Variables Init Dist AuxEv AV : Type.
+  Variable measure : option Init -> zind -> Dist.
+  Variable aux_eval : AuxEv -> zind -> AV.
+  Notation evqe_run := (evqe_run ev Init Dist AuxEv AV measure aux_eval).
+  Notation l_err := (Loop.l_err zind cres (population Z) op cworld).
+  Notation l_w := (Loop.l_w zind cres (population Z) op cworld).
+  Notation l_st := (Loop.l_st zind cres (population Z) op cworld).
+  Notation l_pop := (Loop.l_pop zind cres (population Z) op cworld).
+  Notation l_tr := (Loop.l_tr zind cres (population Z) op cworld).
+
+  (* C17_run_functional.  The composed result is a function of (configuration, seed, master stream, initializer stream,
+     application logs [operator draws, task logs, optimiser answers], evaluator oracle) only, and of no more of the
+     logs than it consumes: a run whose loop ends without a pending exception consumed prefixes um / ui / ua of the three
+     logs, and ANY run on logs that start with these prefixes returns the same seeds, the same initial population, the
+     same loop state (trace of every operator application with its argument population and callback payloads, ledger,
+     generations, best individual and value, history, last population) and the same result, and hands back exactly
+     what follows the prefixes.  Hence two runs whose logs agree on the consumed prefixes return equal results and
+     equal remainders. *)
+  Theorem C17_run_functional : forall c seed init aux m os i a ifuel fuel out,
+    evqe_run c seed init aux (mkLogs m os i a) ifuel fuel = Ok out ->
+    l_err (o_ls Init Dist AV out) = None ->
+    exists um ui ua,
+      m = um ++ o_master_rest Init Dist AV out /\ i = ui ++ o_init_rest Init Dist AV out /\
+      a = ua ++ l_w (o_ls Init Dist AV out) /\
+      forall tm ti ta,
+        evqe_run c seed init aux (mkLogs (um ++ tm) os (ui ++ ti) (ua ++ ta)) ifuel fuel
+        = Ok (mkOut Init Dist AV (o_seeds Init Dist AV out) (o_pop0 Init Dist AV out)
+                (Loop.with_w zind cres (population Z) op cworld ta (o_ls Init Dist AV out))
+                (o_result Init Dist AV out) tm ti).
+  Proof. exact (evqe_run_functional ev Init Dist AuxEv AV measure aux_eval). Qed.
+
+  (* C17_run_completion_independent.  For every completion order of every executor batch: two supplies of application
+     logs that differ only in the completion orders (each a rearrangement of the other's) give - if the first run ends
+     without a pending exception - the same seeds, initial population, trace, callback state, last population and
+     result.  (Lifts selection_alignment / mutation_order_independent through the loop.) *)
+  Theorem C17_run_completion_independent : forall c seed init aux m os i a a' ifuel fuel out,
+    Forall2 app_perm a a' ->
+    evqe_run c seed init aux (mkLogs m os i a) ifuel fuel = Ok out ->
+    l_err (o_ls Init Dist AV out) = None ->
+    exists s', evqe_run c seed init aux (mkLogs m os i a') ifuel fuel
+               = Ok (mkOut Init Dist AV (o_seeds Init Dist AV out) (o_pop0 Init Dist AV out) s' (o_result Init Dist AV out)
+                       (o_master_rest Init Dist AV out) (o_init_rest Init Dist AV out))
+               /\ l_st s' = l_st (o_ls Init Dist AV out) /\ l_pop s' = l_pop (o_ls Init Dist AV out)
+               /\ l_tr s' = l_tr (o_ls Init Dist AV out) /\ l_err s' = None
+               /\ Forall2 app_perm (l_w (o_ls Init Dist AV out)) (l_w s').
+  Proof. exact (evqe_run_completion_independent ev Init Dist AuxEv AV measure aux_eval). Qed.
+
+  (* C17_run_consistent.  The composed run satisfies C05's clauses (builder-solver's theorems of Solver/Loop_proofs.v
+     instantiated at the composition): the history is the sequence of reported results, the eigenvalue and the best
+     individual are those of the FIRST minimum of the history, generations = length of the history = number of result
+     callbacks, the ledger sums to everything the operators reported. *)
+  Theorem C17_run_consistent : forall c seed init aux lgs ifuel fuel out res,
+    evqe_run c seed init aux lgs ifuel fuel = Ok out -> o_result Init Dist AV out = Ok res ->
+    let tr := l_tr (o_ls Init Dist AV out) in
+    Loop.sr_history _ _ _ _ _ res = Ledger.results_of cres (Ledger.events_of zind cres (population Z) op tr)
+    /\ (exists k r, Ledger.first_min cres r_best_value (Loop.sr_history _ _ _ _ _ res) k r
+                    /\ Loop.sr_eigenvalue _ _ _ _ _ res = r_best_value r /\ Loop.sr_best_individual _ _ _ _ _ res = r_best r)
+    /\ Loop.sr_generations _ _ _ _ _ res = length (Loop.sr_history _ _ _ _ _ res)
+    /\ Loop.sr_generations _ _ _ _ _ res = Ledger.n_results zind cres (population Z) op tr
+    /\ sumZ (Loop.sr_circuit_evaluations _ _ _ _ _ res)
+       = sumZ (Ledger.counts_of cres (Ledger.events_of zind cres (population Z) op tr)).
+  Proof. exact (evqe_run_consistent ev Init Dist AuxEv AV measure aux_eval). Qed.
+End ComposedRun.
+Print Assumptions C17_run_functional.
+Print Assumptions C17_run_completion_independent.
+Print Assumptions C17_run_consistent.
+
+(* A complete 2-generation run (recorded from /repo: 1 qubit, 2 individuals, tournament selection, seed 11, two workers
+   with forced completion orders), evaluated by vm_compute: the composed model accepts it completely, returns after
+   exactly two generations with the ledger [16; 16], no pending exception, every log used up - so the hypotheses of
+   the three theorems above are satisfiable by a real run. *)
+Example C17_run_example :
+  QV.Repro.ComposeCheck.check_case QV.Repro.ComposeExample.example_run = true
+  /\ exists out res,
+       QV.Repro.ComposeCheck.the_run QV.Repro.ComposeExample.example_run = Ok out
+       /\ Loop.l_err _ _ _ _ _ (QV.Repro.Compose.o_ls unit unit unit out) = None
+       /\ Loop.l_w _ _ _ _ _ (QV.Repro.Compose.o_ls unit unit unit out) = []
+       /\ QV.Repro.Compose.o_result unit unit unit out = Ok res
+       /\ Loop.sr_generations _ _ _ _ _ res = 2%nat
+       /\ Loop.sr_circuit_evaluations _ _ _ _ _ res = [16; 16]
+       /\ length (Loop.sr_history _ _ _ _ _ res) = 2%nat.
+Proof. split; [vm_compute; reflexivity|]. do 2 eexists. vm_compute. repeat split. Qed.
+Print Assumptions C17_run_example.
